@@ -9,7 +9,7 @@
                        admission checks                         (find_groups_names)
      - segment level : items are the CR-separated pieces of the message text, segments are
                        parsed by Model/Parser.parse_segment with the reference found, groups are
-                       admitted by Group._is_valid_child / ElementList._can_add_child
+                       accepted by Group._is_valid_child / ElementList._can_add_child
                                                                 (parse_segments_grouped)
    State of the fold = (parents_refs stack, path of the current parent, forest).  The current
    parent is a POINTER in Python; here it is the path (child indices from the top level) of a
@@ -102,8 +102,15 @@ Fixpoint scan_rows (name : str) (rows : list srow) (groups : list srow)
   | x :: rest =>
       match row_name_kind x with
       | None => Err (Crash IndexError)                           (* c[3] of a malformed row *)
-      | Some (SEG, n) => if streqb n name then do r <- row_ref x; Ok (Some r, [])
-                         else scan_rows name rest groups
+      | Some (SEG, n) =>
+          if streqb n name then
+            do r <- row_ref x;
+            match r with
+            | SBad => Ok (None, [])       (* ref = c[1] is None (v2.1 ORU_R03 groups); break: reported as
+                                             not found and the groups of this level are not visited *)
+            | _ => Ok (Some r, [])
+            end
+          else scan_rows name rest groups
       | Some (GRP, _) => scan_rows name rest (x :: groups)
       | Some (_, _) => scan_rows name rest groups
       end
@@ -214,7 +221,7 @@ Variable mkseg : X -> option sref -> result A.         (* parse_segment(s.strip(
 Variable nm : A -> str.                                (* segment.name *)
 (* parent.add(child) for a Group parent: (name, reference, structure) of the parent, names of the
    children it has, name of the new child *)
-Variable admit : str * sref * structure -> list str -> str -> result unit.
+Variable admission : str * sref * structure -> list str -> str -> result unit.
 Variable root : sref.                                  (* the `references` argument *)
 
 Record gstate := mk_gstate { g_stack : list entry; g_path : list nat; g_forest : gforest A }.
@@ -233,7 +240,7 @@ Definition cur_group (s : gstate) : result (option (str * sref * structure * gfo
 Definition add_child (s : gstate) (x : gtree A) : result gstate :=
   do c <- cur_group s;
   do _ <- match c with
-          | Some (n, r, st, cs) => admit (n, r, st) (map (child_name nm) cs) (child_name nm x)
+          | Some (n, r, st, cs) => admission (n, r, st) (map (child_name nm) cs) (child_name nm x)
           | None => Ok tt
           end;
   Ok (mk_gstate (g_stack s) (g_path s) (append_at (g_path s) x (g_forest s))).
@@ -336,9 +343,9 @@ Arguments mk_gstate {A}. Arguments g_stack {A}. Arguments g_path {A}. Arguments 
 
 (* ---------- names level ---------- *)
 Definition ntree := gtree str.
-Definition no_admit (_ : str * sref * structure) (_ : list str) (_ : str) : result unit := Ok tt.
+Definition no_admission (_ : str * sref * structure) (_ : list str) (_ : str) : result unit := Ok tt.
 Definition find_groups_names (t : tables) (root : sref) (names : list str) : result (list ntree) :=
-  find_groups t str str (fun n => n) (fun n _ => Ok (upper n)) (fun n => n) no_admit root names.
+  find_groups t str str (fun n => n) (fun n _ => Ok (upper n)) (fun n => n) no_admission root names.
 
 (* canonical text of a forest of names: segments by name, groups as (NAME child child ...) *)
 Fixpoint dump_ntree (x : ntree) : str :=
@@ -365,7 +372,7 @@ Variable lvl : level.
 Variable e : ec.
 Variable leaf_enc : option str -> str -> result str.
 
-(* re.match(r'^z[a-z0-9]{2}_z[a-z0-9]{2}$', name, re.IGNORECASE)  ($ admits one final newline) *)
+(* re.match(r'^z[a-z0-9]{2}_z[a-z0-9]{2}$', name, re.IGNORECASE)  ($ also matches before one final newline) *)
 Definition az09 (b : byte) : bool := is_alpha b || is_digit b.
 Definition is_z (b : byte) : bool := beqb b "z" || beqb b "Z".
 Definition valid_z_message_name (name : option str) : bool :=
@@ -403,13 +410,13 @@ Definition child_card_ok (st : option structure) (child : str) (have : list str)
   negb ((Z.of_nat (count_str child have) + 1 >? mx)%Z && (mx >? -1)%Z).
 
 (* parent.add(child) for a Group (is_msg = false) or Message parent *)
-Definition admit_child (is_msg : bool) (pname : option str) (st : option structure)
+Definition child_admission (is_msg : bool) (pname : option str) (st : option structure)
            (have : list str) (child : str) : result unit :=
   do _ <- find_child_check is_msg pname st child;
   if child_card_ok st child have then Ok tt else Err (HL7 EMaxChildLimitReached).
 
-Definition group_admit (p : str * sref * structure) (have : list str) (child : str) : result unit :=
-  match p with (n, _, st) => admit_child false (Some n) (Some st) have child end.
+Definition group_admission (p : str * sref * structure) (have : list str) (child : str) : result unit :=
+  match p with (n, _, st) => child_admission false (Some n) (Some st) have child end.
 
 (* the non-empty pieces of text.split('\r') *)
 Definition pieces (text : str) : list str :=
@@ -419,7 +426,7 @@ Definition seg_of_piece (s : str) (r : option sref) : result seg :=
   parse_segment t lvl e leaf_enc (strip s) r.
 
 Definition parse_segments_grouped_trees (root : sref) (text : str) : result (list (gtree seg)) :=
-  find_groups t str seg (take 3) seg_of_piece s_name group_admit root (pieces text).
+  find_groups t str seg (take 3) seg_of_piece s_name group_admission root (pieces text).
 
 Fixpoint node_of (x : gtree seg) : node :=
   match x with
@@ -466,26 +473,8 @@ Definition copies (m : imode) (k : kind) (depth : nat) (c : Z * Z) : nat :=
              end
   end.
 
-(* the first member of a group, down to a segment *)
-Fixpoint first_member (fuel : nat) (r : sref) : list etree :=
-  match fuel with
-  | O => []
-  | S f =>
-      match rows_of t r with
-      | Ok (x :: _) =>
-          match row_name_kind x with
-          | Some (SEG, n) => [ES n]
-          | Some (GRP, n) => match row_ref t x with
-                             | Ok gr => match first_member f gr with [] => [] | k => [EG n k] end
-                             | Err _ => []
-                             end
-          | _ => []
-          end
-      | _ => []
-      end
-  end.
-
-Fixpoint instance (fuel : nat) (m : imode) (depth : nat) (r : sref) : list etree :=
+Fixpoint instance_with (fm : sref -> list etree) (fuel : nat) (m : imode) (depth : nat) (r : sref)
+  : list etree :=
   match fuel with
   | O => []
   | S f =>
@@ -498,9 +487,9 @@ Fixpoint instance (fuel : nat) (m : imode) (depth : nat) (r : sref) : list etree
             | Some (GRP, n) =>
                 match row_ref t x with
                 | Ok gr =>
-                    let kids := instance f m (S depth) gr in
+                    let kids := instance_with fm f m (S depth) gr in
                     let kids := match kids, m with
-                                | [], IReq => first_member f gr
+                                | [], IReq => fm gr
                                 | _, _ => kids
                                 end in
                     match kids with
@@ -513,6 +502,35 @@ Fixpoint instance (fuel : nat) (m : imode) (depth : nat) (r : sref) : list etree
             end) rows
       end
   end.
+
+(* the first member of a group: a segment, or a leading group with its required members (with its
+   own first member when it has none) *)
+Fixpoint first_member (fuel : nat) (r : sref) : list etree :=
+  match fuel with
+  | O => []
+  | S f =>
+      match rows_of t r with
+      | Ok (x :: _) =>
+          match row_name_kind x with
+          | Some (SEG, n) => [ES n]
+          | Some (GRP, n) =>
+              match row_ref t x with
+              | Ok gr =>
+                  let kids := match instance_with (first_member f) f IReq 1 gr with
+                              | [] => first_member f gr
+                              | k => k
+                              end in
+                  match kids with [] => [] | k => [EG n k] end
+              | Err _ => []
+              end
+          | _ => []
+          end
+      | _ => []
+      end
+  end.
+
+Definition instance (fuel : nat) (m : imode) (depth : nat) (r : sref) : list etree :=
+  instance_with (first_member fuel) fuel m depth r.
 
 (* every SEG name of the structure, groups included *)
 Fixpoint seg_places (fuel : nat) (r : sref) : list str :=
